@@ -311,6 +311,10 @@ pub fn run_worker(kind: &str, job: &Value, timeout: Duration) -> WorkerOutcome {
     let mut child = Command::new(exe)
         .arg("worker")
         .arg(kind)
+        // fixed clean environment: the debuggee's initial stack (and so every stack address)
+        // must be identical between the reference tracer and the debugger sessions
+        .env_clear()
+        .envs(worker_env())
         .stdin(Stdio::piped())
         .stdout(Stdio::piped())
         .stderr(Stdio::piped())
@@ -425,4 +429,12 @@ pub fn wall_cap(tier: Tier, quick_s: u64, thorough_s: u64) -> Duration {
         Tier::Quick => Duration::from_secs(quick_s),
         Tier::Thorough => Duration::from_secs(thorough_s),
     }
+}
+
+/// The one environment every worker (and therefore every debuggee and the reference tracer) runs
+/// in. PATH deliberately contains neither `ldd` nor `rustup`: BugStalker treats both as optional
+/// (dependencies are then discovered at the dynamic linker's rendezvous point) and a session costs
+/// two to three fewer process launches. RAYON_NUM_THREADS keeps the DWARF parser's pool small.
+pub fn worker_env() -> Vec<(&'static str, &'static str)> {
+    vec![("PATH", "/nonexistent"), ("HOME", "/root"), ("RAYON_NUM_THREADS", "2")]
 }
